@@ -99,6 +99,64 @@ def eval_long(case):
     return OK(outcome=(L, layout), nontrivial=L >= 2, evals=nev)
 
 
+def eval_callers(case):
+    """The filter as its public callers apply it: detect_bursts_cycles (first / last cycle cleared BEFORE the runs are measured),
+    detect_bursts_amp, and compute_features with the amplitude method (one minimum from the burst options)."""
+    import pandas as pd
+    from bycycle.burst import detect_bursts_cycles, detect_bursts_amp
+    bits = [bool(b) for b in case]
+    n = len(bits)
+    thr = (.25, .5, .5, .75)
+    feats = ('amp_fraction', 'amp_consistency', 'period_consistency', 'monotonicity')
+    rows = [[t + .25 for t in thr] if b else [thr[0] + .25, thr[1] + .25, thr[2] + .25, thr[3] - .25] for b in bits]
+    nev = 0
+    for m in (0, 1, 2, 3, 4):
+        df = pd.DataFrame(rows, columns=list(feats))
+        kw = dict(zip([f + '_threshold' for f in feats], thr))
+        got = [bool(x) for x in detect_bursts_cycles(df, min_n_cycles=m, **kw)['is_burst']]
+        inner = list(bits)
+        if n:
+            inner[0] = False
+            inner[-1] = False
+        exp = min_run_filter(inner, m)
+        nev += 1
+        if got != exp:
+            return VIOL({'kind': 'caller', 'site': 'detect_bursts_cycles', 'm': m}, 'detect_bursts_cycles: labels are not the minimum-run filter of the '
+                        'qualifying cycles (first and last never qualify)', expected=exp, observed={'got': got, 'qualifying': bits}, evals=nev)
+        got = [bool(x) for x in detect_bursts_amp(pd.DataFrame({'burst_fraction': [1. if b else 0. for b in bits]}), burst_fraction_threshold=1, min_n_cycles=m)['is_burst']]
+        exp = min_run_filter(bits, m)
+        nev += 1
+        if got != exp:
+            return VIOL({'kind': 'caller', 'site': 'detect_bursts_amp', 'm': m}, 'detect_bursts_amp: labels are not the minimum-run filter of burst_fraction >= threshold',
+                        expected=exp, observed={'got': got, 'supra': bits}, evals=nev)
+    return OK(outcome=tuple(bits), nontrivial=True, evals=nev)
+
+
+def eval_pipeline_amp(case):
+    """compute_features(burst_method='amp'): the labels are the minimum-run filter of burst_fraction >= threshold with the ONE minimum
+    given through the burst options / the thresholds / both."""
+    from bycycle.features import compute_features
+    from bcmc import spaces as S
+    from bcmc.pipe import precondition
+    letters, (tm, bm) = case[:-1], case[-1]
+    sig = S.word_signal(''.join(letters))
+    if not precondition(sig, S.resolve(()))[0]:
+        return OK(outcome=None, nontrivial=False)
+    thr, bk = {'burst_fraction_threshold': .5}, {'amp_threshes': (.5, 1.)}
+    if tm is not None:
+        thr['min_n_cycles'] = tm
+    if bm is not None:
+        bk['min_n_cycles'] = bm
+    m = bm if bm is not None else (tm if tm is not None else 3)
+    df = compute_features(sig, 64, (6, 14), burst_method='amp', threshold_kwargs=thr, burst_kwargs=bk)
+    exp = min_run_filter([v >= .5 for v in df['burst_fraction']], m)
+    got = [bool(x) for x in df['is_burst']]
+    if got != exp:
+        return VIOL({'kind': 'caller', 'site': 'compute_features(amp)', 'route': [tm, bm]}, 'labels are not the minimum-run filter (minimum %s) of burst_fraction >= .5' % m,
+                    expected=exp, observed={'got': got, 'burst_fraction': df['burst_fraction'].tolist()})
+    return OK(outcome=(''.join(letters), tm, bm, tuple(got)), nontrivial=any(got) and not all(got))
+
+
 RUN_PATTERNS = [((1, 3, 2, 4), (1, 2)), ((2, 1), (1,)), ((3, 1, 1, 5, 2), (2, 1, 3)), ((1,), (1,)), ((4, 2, 6), (1, 1, 2))]
 
 
@@ -138,4 +196,8 @@ def spaces(tier, seed):
     return [BoolTree(12 if tier == 'quick' else 16),
             ProductSpace('exact-runs<=%d' % Lmax, [list(range(1, Lmax + 1)), ['start', 'end', 'both']], eval_long,
                          describe='for every run length L <= %d: runs of L-1, L, L+1 at the start / end / inside x thresholds L-1, L, L+1, L+.5' % Lmax),
-            many]
+            many,
+            ProductSpace('callers-bool<=9', [[0, 1]] * 9, eval_callers, min_len=1,
+                         describe='every boolean pattern of 1..9 cycles through detect_bursts_cycles and detect_bursts_amp x min_n_cycles 0..4'),
+            ProductSpace('callers-pipeline-W(3,6)', [['a', 'd', 'z']] * 6 + [[(None, 2), (None, 4), (2, 4), (4, 1), (1, None), (None, None)]], eval_pipeline_amp,
+                         describe='6-letter words through compute_features(amp) x 6 routes of the minimum')]
